@@ -102,16 +102,20 @@ for _h in STATE_HOOKS + OUTPUT_HOOKS + PAUSE_HOOKS:
 
 
 class FaultListener(plumpy.ProcessListener):
-    def __init__(self, fault):
+    def __init__(self, fault, plan=None, do=None):
         super().__init__()
         self.fault = fault
         self.counts = {}
         self.ev = []
         self.fired = False
+        self.plan, self.do = plan or {}, do     # {(notification, occurrence): op}: a request made DURING the transition
 
     def _hit(self, name):
         n = self.counts[name] = self.counts.get(name, 0) + 1
         self.ev.append(name)
+        op = self.plan.get((name, n))
+        if op is not None and self.do is not None:
+            self.do(op)
         f = self.fault
         if f is not None and f[0] == 'listener' and f[1] == name and f[2] == n:
             self.fired = True
@@ -153,7 +157,7 @@ def run_case(case):
         res.update(constructed=False, construct_error=type(e).__name__)
         loop.close()
         return res
-    lis = FaultListener(fault)
+    lis = FaultListener(fault, {(k[0], int(k[1])): v for k, v in (case.get('plan') or [])}, lambda op: do(op))
     p.add_process_listener(lis)
     cleanups = []
 
@@ -380,6 +384,18 @@ def gen_cases(ctx):
         cases.append(dict(fault=('cleanup', 'c', 1, 'before'), schedule=sc))
     for v in ('before', 'after'):
         cases.append(dict(fault=('construct', 'on_create', 1, v), schedule={}))
+    # a request made by a LISTENER during a transition (so possibly the very transition in which the fault fires)
+    plans = [[((n, o), op)] for n in ('on_process_running', 'on_process_waiting', 'on_process_paused', 'on_process_played')
+             for o in (1, 2) for op in ('kill', 'pause', 'play') if not (n == 'on_process_paused' and op == 'pause')]
+    for h in STATE_HOOKS:
+        for o in (1, 2):
+            for v in ('before', 'after'):
+                for plan in plans:
+                    for sc in ({}, {1: ['pause'], 4: ['play']}):
+                        cases.append(dict(fault=('hook', h, o, v), schedule=sc, plan=plan))
+    for st in STEPS:
+        for plan in plans:
+            cases.append(dict(fault=('step', st, 1, 'before'), schedule={}, plan=plan))
     return cases
 
 
@@ -387,7 +403,7 @@ def _work(case):
     if case['fault'] is not None and case['fault'][0] == 'construct':
         return run_construct(case), None
     res = run_case(case)
-    base = run_case(dict(fault=None, schedule=case['schedule'])) if case['fault'] and case['fault'][0] in ('listener', 'cleanup') else None
+    base = run_case(dict(fault=None, schedule=case['schedule'], plan=case.get('plan'))) if case['fault'] and case['fault'][0] in ('listener', 'cleanup') else None
     return res, base
 
 
@@ -462,7 +478,7 @@ def run(ctx):
 
 def replay(ctx, failure):
     case = failure['case']
-    case = dict(fault=tuple(case['fault']) if case['fault'] else None, schedule=case['schedule'])
+    case = dict(fault=tuple(case['fault']) if case['fault'] else None, schedule=case['schedule'], plan=case.get('plan'))
     res, base = _work(case)
     fails = [] if case['fault'][0] == 'construct' else monitors(case, res, base)
     return dict(result={k: v for k, v in res.items() if k != 'calls'}, failures=[dict(signature=f['signature'], clause=f['clause'], detail=f['detail']) for f in fails])
